@@ -1277,8 +1277,8 @@ def cases(tier, rng):
     for units in arg_scripts:
         toks = flatten_units(units)
         comps = list(compositions(len(units)))
-        if quick:
-            comps = [comps[0], comps[-1]] + [comps[rng.randrange(1, len(comps) - 1)] for _ in range(2)]
+        nsample = 2 if quick else 10
+        comps = [comps[0], comps[-1]] + [comps[rng.randrange(1, len(comps) - 1)] for _ in range(nsample)]
         for sizes in comps:
             for pat in ("pre", "inter", "interT", "late"):
                 if pat == "pre" and len(sizes) > 1:
